@@ -119,6 +119,29 @@ class ModuleInfo:
         return lines[n - 1] if 0 < n <= len(lines) else ""
 
 
+def _positional_only_by_unpacking(fn) -> None:
+    """`def m(*args, **kw): self, key, *args = args` is the pre-3.8 spelling of `def m(self, key, /, *args, **kw)`:
+    rewrite the node to the latter (in place), so that every rule sees ordinary parameters."""
+    a = fn.args
+    if a.posonlyargs or a.args or a.vararg is None or not fn.body:
+        return
+    first = fn.body[0]
+    k = 0
+    if isinstance(first, ast.Expr) and isinstance(first.value, ast.Constant) and isinstance(first.value.value, str) and len(fn.body) > 1:
+        first, k = fn.body[1], 1
+    if not (isinstance(first, ast.Assign) and len(first.targets) == 1 and isinstance(first.targets[0], ast.Tuple)
+            and isinstance(first.value, ast.Name) and first.value.id == a.vararg.arg):
+        return
+    elts = first.targets[0].elts
+    if not elts or not all(isinstance(e, ast.Name) for e in elts[:-1]) or not (
+            isinstance(elts[-1], ast.Starred) and isinstance(elts[-1].value, ast.Name) and elts[-1].value.id == a.vararg.arg):
+        return
+    a.posonlyargs = [ast.copy_location(ast.arg(arg=e.id, annotation=None), e) for e in elts[:-1]]
+    del fn.body[k]
+    if not fn.body:
+        fn.body.append(ast.copy_location(ast.Pass(), first))
+
+
 def _decorator_name(d: ast.AST) -> str:
     try:
         return ast.unparse(d)
@@ -223,6 +246,8 @@ class Program:
         for st in body:
             if isinstance(st, (ast.FunctionDef, ast.AsyncFunctionDef)):
                 qn = f"{prefix}{st.name}"
+                if cls is not None and parent is None:
+                    _positional_only_by_unpacking(st)
                 fi = FuncInfo(mod, qn, st, cls if parent is None else None, parent,
                               [_decorator_name(d) for d in st.decorator_list])
                 # a class body's direct methods keep cls; nested functions remember the enclosing fn
